@@ -216,7 +216,7 @@ def differential(pid, rng, tier, run_driver):
     cs = cases(pid, rng, tier)
     real = [run_real(c) for c in cs]
     lean = run_driver(DRIVER, cs)
-    d1, d2, hist = [], [], {}
+    d1, d2, d3, hist = [], [], [], {}
     for c, r, l in zip(cs, real, lean):
         k = c["fn"] + "/" + (r["cls"] if r["r"] == "raised" else (str(r["v"]) if isinstance(r.get("v"), bool) else "value"))
         if c["fn"] == "authn_statement_ok" and r["r"] == "value":
@@ -226,7 +226,9 @@ def differential(pid, rng, tier, run_driver):
             d1.append({"case": c, "cpython": r, "interp": l.get("interp")})
         if l.get("interp") != l.get("model"):
             d2.append({"case": c, "interp": l.get("interp"), "model": l.get("model")})
-    return {"cases": len(cs), "interp_vs_cpython": d1, "interp_vs_model": d2, "outcomes": hist}
+        if l.get("model") != r:    # the real function against the hand-written model function, no interpreter involved
+            d3.append({"case": c, "cpython": r, "model": l.get("model")})
+    return {"cases": len(cs), "interp_vs_cpython": d1, "interp_vs_model": d2, "cpython_vs_model": d3, "outcomes": hist}
 
 
 def search_cases(pid, rng, run_driver):
@@ -238,10 +240,15 @@ def search_cases(pid, rng, run_driver):
     except Exception:
         return []
     out = []
-    for d in res["interp_vs_model"][:200]:
+    # where the REAL function differs from the model function first; then where the regenerated term (when the
+    # interpreter understands it) differs from the model function
+    cands = res["cpython_vs_model"] + [d for d in res["interp_vs_model"] if (d.get("interp") or {}).get("r") != "stuck"]
+    for d in cands[:300]:
         c = d["case"]
         try:
             if c["fn"] == "for_me" and c["me"] == S.SP_ID:
+                if any(len(r) == 0 for r in c["rs"]):
+                    continue   # an AudienceRestriction without Audience does not pass instance validation at load
                 C = importlib.import_module("props._sp_common")
                 k = C.base_case(pid)
                 k["resp"]["assertions"][0]["conditions"]["audiences"] = [[a or "" for a in r] for r in c["rs"]]
